@@ -534,6 +534,12 @@ Proof.
     [apply others_add | apply others_remove | apply others_set | apply others_remove_all | apply others_remove_all].
 Qed.
 
+Lemma others_comm e e' l : others e (others e' l) = others e' (others e l).
+Proof.
+  unfold others. induction l as [|i l IH]; simpl; [reflexivity|].
+  destruct (N.eqb (i_ent i) e') eqn:E1, (N.eqb (i_ent i) e) eqn:E2; simpl; rewrite ?E1, ?E2; simpl; rewrite IH; reflexivity.
+Qed.
+
 Lemma listed_others e l k : key_ent k <> e -> listed (others e l) k = listed l k.
 Proof.
   destruct k as [[e' a'] n']. unfold key_ent. simpl. intros Hne.
@@ -615,7 +621,7 @@ Lemma step_inv s m o :
   let '(m1, v) := mon m o out in
   v = [] /\ Inv s1 m1.
 Proof.
-  intros I. destruct o as [t u|t|e a n|]; simpl.
+  intros I. destruct o as [t u|t|e a n| |u1 u2]; simpl.
   - (* Begin *)
     rewrite (active_thread_op s t) by (intros t' u' d' H; exact (proj2 (inv_snap _ _ I _ _ _ H))).
     rewrite (inv_pend _ _ I t).
@@ -689,6 +695,27 @@ Proof.
     rewrite info_has_listed, (inv_agree _ _ I). rewrite eqb_reflx. split; [reflexivity | exact I].
   - (* Read *)
     rewrite parse_list_render, (denotes_ok _ _ (inv_wf _ _ I) (inv_agree _ _ I)). split; [reflexivity | exact I].
+  - (* Par2 *)
+    destruct (hold s) as [[[t' u] snap]|] eqn:Eh; [split; [reflexivity | exact I]|].
+    set (d := apply_uop (apply_uop (store s) u1) u2).
+    assert (Hwf : WF (data_list d)).
+    { unfold d. rewrite !data_list_apply. apply WF_apply, WF_apply. exact (inv_wf _ _ I). }
+    assert (Hag : forall k, listed (data_list d) k = reg_lookup k (spec_apply (spec_apply (m_reg m) u1) u2)).
+    { intros k. unfold d. rewrite data_list_apply. apply listed_apply.
+      - rewrite data_list_apply. apply WF_apply. exact (inv_wf _ _ I).
+      - intros k0. rewrite data_list_apply. apply listed_apply; [exact (inv_wf _ _ I) | exact (inv_agree _ _ I)]. }
+    assert (Hiso : eqb_infos (others (ent_of u2) (others (ent_of u1) (data_list d)))
+                             (others (ent_of u2) (others (ent_of u1) (m_last m))) = true).
+    { rewrite (inv_last _ _ I). unfold d. rewrite !data_list_apply.
+      rewrite (others_comm (ent_of u2) (ent_of u1) (apply_list (apply_list (data_list (store s)) u1) u2)).
+      rewrite others_apply.
+      rewrite (others_comm (ent_of u1) (ent_of u2) (apply_list (data_list (store s)) u1)).
+      rewrite others_apply. apply eqb_infos_refl. }
+    simpl. rewrite parse_list_render, (denotes_ok _ _ Hwf Hag), Hiso. simpl.
+    split; [reflexivity|].
+    destruct I as [I1 I2 I3 I4 I5 I6]. constructor; simpl; auto.
+    + discriminate.
+    + intros t0. specialize (I6 t0). unfold thread_op in *. rewrite Eh in I6. simpl. exact I6.
 Qed.
 
 Theorem run_accepted_from s m sc ops :
@@ -727,7 +754,7 @@ Definition seq_spec (log : list uop) : reg := fold_right (fun u r => spec_apply 
 
 Lemma mon_log m o out : m_reg m = seq_spec (m_log m) -> m_reg (fst (mon m o out)) = seq_spec (m_log (fst (mon m o out))).
 Proof.
-  intros H. destruct o as [t u|t|e a n|]; simpl.
+  intros H. destruct o as [t u|t|e a n| |u1 u2]; simpl.
   - destruct (assoc_N t (m_pend m)); destruct out as [|[] [|? ?]]; simpl; exact H.
   - destruct out as [|ob rest]; [exact H|].
     destruct ob; try exact H.
@@ -736,6 +763,10 @@ Proof.
     + destruct rest; exact H.
   - destruct out as [|[] [|? ?]]; simpl; exact H.
   - destruct (parse_list out); exact H.
+  - destruct out as [|ob rest]; [exact H|].
+    destruct ob; try exact H.
+    + destruct (parse_list rest); simpl; rewrite H; reflexivity.
+    + destruct rest; exact H.
 Qed.
 
 Theorem spec_is_sequential tr : m_reg (mrun minit tr) = seq_spec (m_log (mrun minit tr)).
@@ -754,3 +785,54 @@ Proof. rewrite registry_is_spec, spec_is_sequential. reflexivity. Qed.
 Theorem snapshot_current ops t u d :
   hold (fst (run init ops)) = Some (t, u, d) -> d = store (fst (run init ops)).
 Proof. intros H. exact (proj1 (inv_snap _ _ (run_inv ops) _ _ _ H)). Qed.
+
+(* ---------- two operations left to run freely ---------- *)
+(* Operations on different entities commute on the specification map and on what the data lists:
+   whichever of the two cycles runs first, every key is listed with the same value.  So the
+   composition in the order given stands for both serialisations of [Par2 u1 u2]. *)
+Lemma spec_lookup_ent r u k : key_ent k <> ent_of u -> spec_lookup r u k = reg_lookup k r.
+Proof.
+  intros Hne. destruct k as [[e a] n]. unfold key_ent in Hne.
+  destruct u as [e' a' s|e' a' n'|e' a' n' av|e'|e']; cbn in *; unfold key_eqb, key_ent; cbn;
+    (destruct (N.eqb_spec e e') as [Heq|Hn]; [exfalso; apply Hne; exact Heq | reflexivity]).
+Qed.
+
+Lemma spec_lookup_ext_at r r' u k :
+  reg_lookup k r = reg_lookup k r' -> spec_lookup r u k = spec_lookup r' u k.
+Proof. intros H. destruct u; simpl; rewrite ?H; reflexivity. Qed.
+
+Theorem spec_commutes r u1 u2 k :
+  ent_of u1 <> ent_of u2 ->
+  reg_lookup k (spec_apply (spec_apply r u1) u2) = reg_lookup k (spec_apply (spec_apply r u2) u1).
+Proof.
+  intros Hne. rewrite !spec_apply_lookup.
+  destruct (N.eq_dec (key_ent k) (ent_of u2)) as [E2|N2].
+  - (* k belongs to u2's entity: u1 does not see it *)
+    assert (N1 : key_ent k <> ent_of u1) by congruence.
+    rewrite (spec_lookup_ent (spec_apply r u2) u1 k N1), spec_apply_lookup.
+    apply spec_lookup_ext_at. rewrite spec_apply_lookup. apply spec_lookup_ent. exact N1.
+  - rewrite (spec_lookup_ent (spec_apply r u1) u2 k N2), spec_apply_lookup.
+    symmetry. apply spec_lookup_ext_at. rewrite spec_apply_lookup. apply spec_lookup_ent. exact N2.
+Qed.
+
+Theorem par2_commutes l r0 u1 u2 k :
+  WF l -> (forall k0, listed l k0 = reg_lookup k0 r0) -> ent_of u1 <> ent_of u2 ->
+  listed (apply_list (apply_list l u1) u2) k = listed (apply_list (apply_list l u2) u1) k.
+Proof.
+  intros Hwf H0 Hne.
+  rewrite (listed_apply (apply_list l u1) (spec_apply r0 u1) u2 k (WF_apply l u1 Hwf)
+             (fun k0 => listed_apply l r0 u1 k0 Hwf H0)).
+  rewrite (listed_apply (apply_list l u2) (spec_apply r0 u2) u1 k (WF_apply l u2 Hwf)
+             (fun k0 => listed_apply l r0 u2 k0 Hwf H0)).
+  apply spec_commutes. exact Hne.
+Qed.
+
+(* in every reachable state: both serialisations of two operations on different entities list the same *)
+Theorem par2_commutes_reachable ops u1 u2 k :
+  ent_of u1 <> ent_of u2 ->
+  let l := data_list (store (fst (run init ops))) in
+  listed (apply_list (apply_list l u1) u2) k = listed (apply_list (apply_list l u2) u1) k.
+Proof.
+  intros Hne l. pose proof (run_inv ops) as I.
+  exact (par2_commutes l _ u1 u2 k (inv_wf _ _ I) (inv_agree _ _ I) Hne).
+Qed.
